@@ -2,6 +2,7 @@
 
 Decides the integrity of the four anchored mechanisms on all paths (roll-back discipline, idempotent re-parse, incremental
 body counters, re-base after growth) plus two exhaustion rules; does not decide equality of the parsed message over all cuts."""
+import re
 from .. import cfg, lib, facts
 from ..facts import AnalysisBroken, strip_tmpl
 
@@ -369,15 +370,31 @@ def run(ck):
         copies = [e for e in f.calls(lambda e: (e.get("callee") or "") in ("std::copy", "std::copy_n"))]
         sg = [e for e in f.calls(lambda e: e.base_callee() == "std::basic_streambuf::setg")]
         off = [dd for dd in f.events("decl") if "gptr" in ((dd.get("init") or {}).get("t") or "") and "eback" in ((dd.get("init") or {}).get("t") or "")]
+        # setg may be wrapped in a private helper of the buffer that takes the read offset as a parameter
+        via = None
+        if not sg:
+            for c_ in f.events("call"):
+                for h_ in prog.resolve_call(c_):
+                    hs_ = [e for e in h_.calls(lambda e: e.base_callee() == "std::basic_streambuf::setg")] if h_.blocks and h_.cls == f.cls else []
+                    if len(hs_) == 1 and via is None:
+                        via = (c_, h_, hs_[0])
         d = cfg.dominators(f)
-        ok = bool(grow) and len(sg) == 1 and len(off) == 1
-        detail = "growth=%d setg=%d saved-offset=%d" % (len(grow), len(sg), len(off))
+        nsg = len(sg) if via is None else 1
+        ok = bool(grow) and nsg == 1 and len(off) == 1
+        detail = "growth=%d setg=%d saved-offset=%d" % (len(grow), nsg, len(off))
         if ok:
             last = (copies or grow)
-            ok = all(cfg.ev_dominates(d, off[0], g) for g in grow) and all(cfg.ev_dominates(d, g, sg[0]) for g in last)
-            a = sg[0]["args"]
-            ok = ok and len(a) == 3 and all("bytes.data()" in (x.get("t") or "") for x in a) and off[0]["var"] in (a[1].get("t") or "") and "size()" in (a[2].get("t") or "")
+            sg_ev = sg[0] if via is None else via[0]
+            ok = all(cfg.ev_dominates(d, off[0], g) for g in grow) and all(cfg.ev_dominates(d, g, sg_ev) for g in last)
+            a = (sg[0] if via is None else via[2])["args"]
+            ok = ok and len(a) == 3 and all("bytes.data()" in (x.get("t") or "") for x in a) and "size()" in (a[2].get("t") or "")
+            if via is None:
+                ok = ok and off[0]["var"] in (a[1].get("t") or "")
+            else:
+                # the helper's get pointer is bytes.data() + <param>, and feed passes the saved offset for that parameter
+                pidx = [i for i, p_ in enumerate(via[1].params) if re.search(r"\b%s\b" % re.escape(p_["name"]), a[1].get("t") or "")]
+                ok = ok and bool(pidx) and len(via[0].get("args", [])) > pidx[0] and via[0]["args"][pidx[0]].get("v") == off[0]["var"]
             rets = [e for e in f.events("return") if e.get("const") is True]
-            ok = ok and bool(rets) and all(cfg.ev_dominates(d, sg[0], r) for r in rets)
+            ok = ok and bool(rets) and all(cfg.ev_dominates(d, sg_ev, r) for r in rets)
             detail = "offset '%s' saved before growth; setg(%s) after it on every `return true` path" % (off[0]["var"], ", ".join(x.get("t") or "" for x in a))
         ck.ob("C01-R4", "ArrayStreamBuf::feed/rebase", ok, f.loc, f, detail)
